@@ -435,6 +435,18 @@ func init() {
 		}
 		return cls
 	}
+	// direct predicate (hand-laid-out cmap tables of other producers): subtables stored in any physical
+	// order, tightly packed or with gaps, shared between records, ending exactly at the end of the table,
+	// decode to exactly the bytes each record points to; partially overlapping subtables are refused.
+	ops["cmapx.layout"] = func(f Fields) string {
+		return cxPanic(guard(func() string {
+			t, err := cmap.Decode(cxLayoutBytes(f))
+			if err != nil {
+				return cxErrClass(err)
+			}
+			return "ok:" + cxShowTab(t)
+		}))
+	}
 	ops["cmapx.install"] = func(f Fields) string {
 		return cxPanic(guard(func() string {
 			font := &sfnt.Font{}
@@ -944,6 +956,277 @@ func cxCaseBig4(c *Ctx, r *Rng, k int) {
 	c.Case(Direct, "cmapx.big4", args, true)
 }
 
+// cxLayoutBytes builds a cmap table from a description: recs = key:subIndex in record order, subs = the
+// distinct subtables, order = physical order of the subtables, gap = padding bytes between neighbours,
+// overlap = the second physical subtable starts that many bytes before the end of the first, tail = padding
+// after the last one (0: the last subtable ends exactly at the end of the table).
+func cxLayoutBytes(f Fields) []byte {
+	recs := f.List("recs", ",")
+	var subs [][]byte
+	for _, h := range f.List("subs", ";") {
+		subs = append(subs, mustHexX(h))
+	}
+	order := f.Ints("order")
+	gap, overlap, tail := f.Int("gap"), f.Int("overlap"), f.Int("tail")
+	out := make([]byte, 4+8*len(recs))
+	out[2], out[3] = byte(len(recs)>>8), byte(len(recs))
+	offs := make([]int, len(subs))
+	for pi, si := range order {
+		if pi == 1 && overlap > 0 {
+			out = out[:len(out)-overlap]
+		} else if pi > 0 {
+			for g := 0; g < gap; g++ {
+				out = append(out, 0xAA)
+			}
+		}
+		offs[si] = len(out)
+		out = append(out, subs[si]...)
+	}
+	for g := 0; g < tail; g++ {
+		out = append(out, 0x55)
+	}
+	for i, rc := range recs {
+		j := strings.IndexByte(rc, ':')
+		key := cxParseKey(rc[:j])
+		var si int
+		fmt.Sscan(rc[j+1:], &si)
+		out[4+8*i], out[5+8*i] = byte(key.PlatformID>>8), byte(key.PlatformID)
+		out[6+8*i], out[7+8*i] = byte(key.EncodingID>>8), byte(key.EncodingID)
+		cxPut32(out, 8+8*i, uint32(offs[si]))
+	}
+	return out
+}
+
+var cxPerms = [][]int{{0}, {0, 1}, {1, 0}, {0, 1, 2}, {0, 2, 1}, {1, 0, 2}, {1, 2, 0}, {2, 0, 1}, {2, 1, 0}}
+
+// cxMinimal returns a subtable with the smallest body its header kind allows (10 bytes for formats
+// 0/2/4/6 and 14 as far as cmap.Decode is concerned, 12 for 8/10/12/13; format 12 real: 16 bytes).
+func cxMinimal(r *Rng) []byte {
+	switch r.Intn(6) {
+	case 0:
+		return []byte{0, 6, 0, 10, 0, 0, 0, byte(r.Intn(200)), 0, 0}
+	case 1:
+		return []byte{0, byte(Pick(r, []int{0, 2, 4})), 0, 10, 0, 0, byte(r.Intn(256)), 0, 0, 0}
+	case 2:
+		return []byte{0, 14, 0, 0, 0, 10, 0, 0, 0, 0}
+	case 3:
+		return []byte{0, byte(Pick(r, []int{8, 10, 13})), 0, 0, 0, 0, 0, 12, 0, 0, 0, 0}
+	case 4:
+		return cmap.Format12{}.Encode(0)
+	}
+	return cxFormat6(r, r.Intn(100), r.Range(1, 3), 0)
+}
+
+// cxCaseLayout: hand-laid-out tables: every permutation of physical order against record order (up to
+// three distinct subtables), tight / gapped / shared / overlapping, minimal bodies, exact fit at the end.
+func cxCaseLayout(c *Ctx, r *Rng, k int) {
+	perm := cxPerms[k%len(cxPerms)]
+	ns := len(perm)
+	var subs [][]byte
+	for len(subs) < ns {
+		var sub []byte
+		if r.Chance(1, 2) {
+			sub = cxMinimal(r)
+		} else {
+			sub, _ = cxSubtable(r, c, 0)
+		}
+		dup := false
+		for _, o := range subs {
+			if string(o) == string(sub) {
+				dup = true
+			}
+		}
+		if !dup && len(sub) < 400 {
+			subs = append(subs, sub)
+		}
+	}
+	keys := [][2]int{{0, 3}, {0, 4}, {3, 1}, {3, 10}, {0, 1}, {2, 1}, {4, 7}}
+	r2 := keys[:]
+	nrec := ns + Pick(r, []int{0, 0, 1, 2}) // extra records share a subtable
+	if nrec > len(r2) {
+		nrec = len(r2)
+	}
+	start := r.Intn(len(r2) - nrec + 1)
+	var recs []string
+	for i := 0; i < nrec; i++ {
+		si := i
+		if i >= ns {
+			si = r.Intn(ns)
+		}
+		recs = append(recs, fmt.Sprintf("%d.%d.0:%d", r2[start+i][0], r2[start+i][1], si))
+	}
+	// shuffle which record gets which subtable so that record order and physical order are independent
+	for i := len(recs) - 1; i > 0; i-- {
+		j := r.Intn(i + 1)
+		a, b := strings.Split(recs[i], ":"), strings.Split(recs[j], ":")
+		recs[i], recs[j] = a[0]+":"+b[1], b[0]+":"+a[1]
+	}
+	mode := Pick(r, []string{"tight", "tight", "gapped", "overlap"})
+	gap, overlap := 0, 0
+	switch mode {
+	case "gapped":
+		gap = Pick(r, []int{1, 2, 3, 4, 16})
+	case "overlap":
+		if ns >= 2 {
+			first := subs[perm[0]]
+			if len(first) > 12 {
+				overlap = r.Range(1, len(first)-12)
+			} else {
+				mode = "tight"
+			}
+		} else {
+			mode = "tight"
+		}
+	}
+	tail := Pick(r, []int{0, 0, 0, 1, 7})
+	hexes := make([]string, ns)
+	for i, sb := range subs {
+		hexes[i] = hx(sb)
+	}
+	last := subs[perm[ns-1]]
+	c.Stat("layout", fmt.Sprintf("subs=%d mode=%s", ns, mode))
+	if tail == 0 {
+		c.Stat("layout_exact_fit_last_len", fmt.Sprint(min(len(last), 17)))
+	}
+	args := fmt.Sprintf("recs=%s order=%s gap=%d overlap=%d tail=%d subs=%s", strings.Join(recs, ","), ints(perm), gap, overlap, tail, strings.Join(hexes, ";"))
+	c.Case(Direct, "cmapx.layout", args, true)
+	c.Case(Verdict, "cmapx.tdec", "bytes="+hx(cxLayoutBytes(parseFields(args))), true)
+}
+
+// cxCraft4 builds a format 4 subtable from explicit segment arrays (possibly malformed).
+func cxCraft4(segs [][4]int, ga []int) []byte {
+	n := len(segs)
+	w := []int{4, 0, 0, 2 * n, 0, 0, 0}
+	for _, s := range segs {
+		w = append(w, s[1])
+	}
+	w = append(w, 0)
+	for _, s := range segs {
+		w = append(w, s[0])
+	}
+	for _, s := range segs {
+		w = append(w, s[2])
+	}
+	for _, s := range segs {
+		w = append(w, s[3])
+	}
+	w = append(w, ga...)
+	w[1] = 2 * len(w)
+	b := make([]byte, 2*len(w))
+	for i, x := range w {
+		b[2*i], b[2*i+1] = byte(x>>8), byte(x)
+	}
+	return b
+}
+
+// cxCaseCraft4: malformed-but-plausible format 4 bodies for the decoder: a last segment that uses
+// idRangeOffset, starts below 0xFFFF and reaches outside glyphIdArray; truncated glyphIdArray; missing or
+// damaged 0xFFFF sentinel (the one leniency the decoder has).
+func cxCaseCraft4(c *Ctx, r *Rng) {
+	start := r.Intn(500)
+	ln := r.Range(1, 12)
+	gaLen := ln + Pick(r, []int{-3, -1, 0, 0, 1, 4})
+	if gaLen < 0 {
+		gaLen = 0
+	}
+	ga := make([]int, gaLen)
+	for i := range ga {
+		ga[i] = Pick(r, []int{0, r.Range(1, 60000)})
+	}
+	var segs [][4]int
+	if r.Bool() {
+		segs = append(segs, [4]int{start, start + r.Intn(6), r.Intn(65536), 0})
+		start = segs[0][1] + r.Range(1, 9)
+	}
+	sentinel := Pick(r, []string{"none", "none", "good", "bad-offset"})
+	nseg := len(segs) + 1
+	if sentinel != "none" {
+		nseg++
+	}
+	k := len(segs)
+	// d = ro/2 - (nseg-k): the index of the segment's first value in glyphIdArray
+	d := Pick(r, []int{0, 0, 1, 2, gaLen - ln + 1, gaLen, -1, 40})
+	ro := 2 * (d + nseg - k)
+	if ro <= 0 {
+		ro = 2 * (nseg - k) // d = 0
+		if r.Bool() {
+			ro = 2 // d < 0 when another segment follows
+		}
+	}
+	segs = append(segs, [4]int{start, start + ln - 1, Pick(r, []int{0, 0, r.Intn(65536)}), ro})
+	switch sentinel {
+	case "good":
+		segs = append(segs, [4]int{0xFFFF, 0xFFFF, 1, 0})
+	case "bad-offset":
+		segs = append(segs, [4]int{0xFFFF, 0xFFFF, 1, 0xFFFE})
+	}
+	sub := cxCraft4(segs, ga)
+	if r.Chance(1, 5) && len(sub) > 18 {
+		sub = sub[:len(sub)-2*r.Range(1, min(4, (len(sub)-16)/2))] // truncated glyphIdArray
+		c.Stat("craft4", "truncated")
+	}
+	cs := map[int]bool{0: true, 0xFFFF: true}
+	for _, sg := range segs {
+		for x := sg[0] - 1; x <= sg[1]+1; x++ {
+			if x >= 0 && x <= 0xFFFF {
+				cs[x] = true
+			}
+		}
+	}
+	var cl []int
+	for x := range cs {
+		cl = append(cl, x)
+	}
+	sort.Ints(cl)
+	res := c.Case(Verdict, "cmap4.decode", "bytes="+hx(sub), true)
+	c.Stat("craft4", fmt.Sprintf("sentinel=%s outcome=%s", sentinel, strings.SplitN(res, ":", 2)[0]))
+	c.Case(Direct, "cmap4.decspec", fmt.Sprintf("bytes=%s codes=%s", hx(sub), ints(cl)), true)
+}
+
+// cxCaseBestFallback: a higher-ranked GetBest candidate is present but cannot be decoded (unimplemented
+// format 2/8/10/13/14 or a malformed format 4/6/12 body) next to a lower-ranked one that can.
+func cxCaseBestFallback(c *Ctx, r *Rng) {
+	t := cmap.Table{}
+	good := r.Range(1, 4) // index of the best decodable candidate
+	for i := 0; i < good; i++ {
+		if i == good-1 || r.Chance(2, 3) {
+			var sub []byte
+			switch r.Intn(5) {
+			case 0, 1:
+				sub = cxFake(r, Pick(r, []int{2, 8, 10, 13, 14}), 0)
+			case 2:
+				sub = []byte{0, 4, 0, 16, 0, 0, 0, 3, 0, 0, 0, 0, 0, 0, 0, 0} // odd segCountX2
+			case 3:
+				sub = []byte{0, 6, 0, 14, 0, 0, 0, 65, 0, 9, 0, 1, 0, 2} // entryCount beyond the body
+			case 4:
+				sub = cxCraft12([][3]uint32{{70, 60, 1}}) // end before start
+			}
+			t[cmap.Key{PlatformID: cxPreference[i][0], EncodingID: cxPreference[i][1]}] = sub
+		}
+	}
+	for i := good; i < len(cxPreference); i++ {
+		if i == good || r.Chance(1, 3) {
+			var sub []byte
+			if cxPreference[i][0] == 1 || r.Bool() {
+				sub = cxFormat6(r, 60+i, r.Range(1, 6), 0)
+			} else {
+				m := cmap.Format4{}
+				for j := 0; j < 4; j++ {
+					m[uint16(65+2*j+i)] = glyph.ID(100*i + j + 1)
+				}
+				sub = m.Encode(0)
+			}
+			t[cmap.Key{PlatformID: cxPreference[i][0], EncodingID: cxPreference[i][1]}] = sub
+		}
+	}
+	targ := cxTabArg(t)
+	codes := ints(cxCodes8(r))
+	b := c.Case(Verdict, "cmapx.best", fmt.Sprintf("codes=%s tab=%s", codes, targ), true)
+	c.Stat("best_fallback", cxClass(b))
+	bi := c.Case(Direct, "cmapx.bestidx", "tab="+targ, true)
+	c.Stat("best_fallback_choice", bi)
+}
+
 func cxBigMap(f Fields) cmap.Format12 {
 	n, base, step, g0, mul := f.Int("n"), f.Int("base"), f.Int("step"), f.Int("g0"), f.Int("mul")
 	m := make(cmap.Format12, n)
@@ -986,6 +1269,13 @@ func areaCmapx(c *Ctx) {
 		}
 		if i%2000 == 500 {
 			cxCaseBig4(c, r, i/2000)
+		}
+		if i%8 == 3 {
+			cxCaseLayout(c, r, i/8)
+			cxCaseCraft4(c, r)
+		}
+		if i%16 == 7 {
+			cxCaseBestFallback(c, r)
 		}
 		switch i % 4 {
 		case 0:
